@@ -83,6 +83,25 @@ def step (line : String) : String :=
       | .ok (name, fs) =>
         s!"name={String.ofList name} exists={existsPartialKV fs (nat! a) (nat! b)} content=ok:{hex ((fs.read name).getD [])} {showLoaded (loadPartial fs name)}"
       | .error _ => "err:save"
+  | ["RT", kind, a, b, kv, dp, faults] =>
+    -- transient write failures before the successful attempt: 0 / h / a leave nothing, g leaves half of the content
+    let kv := parseKV kv
+    if hasDup (kv.map (·.1)) then "dup-keys" else
+    let content : Bytes := match marshalVT kv (if kind == "full" then [] else parseList dp) with | .ok c => c | _ => []
+    let att : List WriteAttempt := ((faults.drop 2).toString.toList).map fun c =>
+      if c == 'g' then .fail (some (content.take (content.length / 2))) else .fail none
+    if kind == "full" then
+      match saveFullR [] (nat! a) (nat! b) kv att with
+      | .ok (name, some fs) =>
+        s!"name={String.ofList name} exists={existsFullKV fs (nat! a) (nat! b)} content=ok:{hex ((fs.read name).getD [])} {showLoaded (loadFull fs name)}"
+      | .ok (_, none) => "err:write"
+      | .error _ => "err:save"
+    else
+      match savePartialR [] (nat! a) (nat! b) kv (parseList dp) att with
+      | .ok (name, some fs) =>
+        s!"name={String.ofList name} exists={existsPartialKV fs (nat! a) (nat! b)} content=ok:{hex ((fs.read name).getD [])} {showLoaded (loadPartial fs name)}"
+      | .ok (_, none) => "err:write"
+      | .error _ => "err:save"
   | ["LOAD", kind, h] =>
     let fs : Files := Files.write [] ['x'] (unhex h)
     if kind == "full" then showLoaded (loadFull fs ['x']) else showLoaded (loadPartial fs ['x'])
